@@ -709,6 +709,10 @@ var scanCases = []struct {
 	{"[a-]", []string{"a", "-"}, []string{"b"}},
 	{"a\\", []string{"a\\"}, []string{"a"}},
 	{"[^a-]x", []string{"bx"}, []string{"ax", "-x"}},
+	// a literal prefix followed by characters outside the basic plane, and by a byte that is no UTF-8 at all
+	{"tag:*", []string{"tag:\xf0\x9f\x98\x80", "tag:\xff", "tag:a", "tag:", "tag:\xef\xbf\xbf\xf0\x9f\x98\x80"}, []string{"tag", "tah:"}},
+	{"tag:[^a-z]*", []string{"tag:\xf0\x9f\x98\x80x", "tag:1"}, []string{"tag:a", "tag:"}},
+	{"t\xc3\xa9*", []string{"t\xc3\xa9x", "t\xc3\xa9"}, []string{"te", "t\xc3"}},
 }
 
 // scanBurst fills one collection with more elements than a default page holds (10), the ones the
